@@ -112,17 +112,33 @@ Inductive op :=
 | OLock (owner : N) (excl : bool) (s e : N)
 | OUnlock (owner : N) (s e : N)
 | OTest (owner : N) (excl : bool) (s e : N)
-| ORawSet (owner : N) (t : ltype) (s e : N).   (* Set without preceding Test *)
+| ORawSet (owner : N) (t : ltype) (s e : N)    (* Set without preceding Test *)
+(* The same table driven through OpenedFile / OpenedFilesPool
+   (opened_files_pool.go): requests carry NFSv4 (offset, length). *)
+| ONfsLock (owner : N) (excl : bool) (off len : N)     (* OpenedFile.Lock *)
+| ONfsUnlock (owner : N) (off len : N)                 (* OpenedFile.Unlock *)
+| ONfsTest (owner : N) (excl : bool) (off len : N)     (* OpenedFilesPool.TestLock *)
+| OUnlockAll (owner : N).                              (* OpenedFile.UnlockAll *)
 
 Inductive out :=
 | Granted (delta : Z)
 | Denied (c : lock)
 | TestOk
-| Panicked.
+| Panicked
+| Inval                                           (* NFS4ERR_INVAL *)
+| DeniedNfs (off len : N) (excl : bool) (owner : N).   (* Lock4denied *)
+
+(* byteRangeLockToLock4Denied *)
+Definition to_denied (c : lock) : out :=
+  DeniedNfs (lstart c) (if lend c =? max_u64 then max_u64 else lend c - lstart c)
+            (ltype_eqb (ltyp c) Exclusive) (lowner c).
+
+Definition nfs_out (x : out) : out :=
+  match x with Denied c => to_denied c | x => x end.
 
 Definition ty_of (excl : bool) := if excl then Exclusive else Shared.
 
-Definition step (l : list lock) (o : op) : list lock * out :=
+Definition step_base (l : list lock) (o : op) : list lock * out :=
   match o with
   | OLock ow ex s e =>
     let q := mkLock s e ow (ty_of ex) in
@@ -142,6 +158,28 @@ Definition step (l : list lock) (o : op) : list lock * out :=
   | ORawSet ow t s e =>
     let r := set l (mkLock s e ow t) in
     (set_list r, if set_panic r then Panicked else Granted (set_delta r))
+  | _ => (l, Inval)
+  end.
+
+Definition step (l : list lock) (o : op) : list lock * out :=
+  match o with
+  | ONfsLock ow ex off len =>
+    match offset_length_to_start_end off len with
+    | None => (l, Inval)
+    | Some (s, e) => let '(l', x) := step_base l (OLock ow ex s e) in (l', nfs_out x)
+    end
+  | ONfsUnlock ow off len =>
+    match offset_length_to_start_end off len with
+    | None => (l, Inval)
+    | Some (s, e) => step_base l (OUnlock ow s e)
+    end
+  | ONfsTest ow ex off len =>
+    match offset_length_to_start_end off len with
+    | None => (l, Inval)
+    | Some (s, e) => let '(l', x) := step_base l (OTest ow ex s e) in (l', nfs_out x)
+    end
+  | OUnlockAll ow => step_base l (OUnlock ow 0 max_u64)
+  | _ => step_base l o
   end.
 
 Fixpoint run (l : list lock) (ops : list op) : list lock * list out :=
